@@ -31,7 +31,8 @@ COMPONENTS = {"real": ["glogging.Logger.access/atoms/_get_user/SafeAtoms", "Resp
 
 ATOMS = ["%(h)s", "%(l)s", "%(u)s", "%(t)s", "\"%(r)s\"", "%(m)s", "%(U)s", "%(q)s", "%(H)s", "\"%(f)s\"", "\"%(a)s\"",
          "%(T)s", "%(D)s", "%(M)s", "%(L)s", "%(p)s", "%({x-h}i)s", "%({X-App}o)s", "%({content-type}o)s",
-         "%({raw_uri}e)s", "%({wsgi.url_scheme}e)s", "%({http_user_agent}e)s", "%({missing}i)s", "%({authorization}i)s"]
+         "%({raw_uri}e)s", "%({wsgi.url_scheme}e)s", "%({http_user_agent}e)s", "%({missing}i)s", "%({authorization}i)s",
+         "%({path_info}e)s", "%({query_string}e)s", "%({http_x_h}e)s", "%({remote_addr}e)s", "%({referer}i)s", "%({X-H}i)s"]
 PREFIX = "ST=%(s)s BY=%(B)s by=%(b)s || "
 REC = re.compile(r"^ST=(\S+) BY=(\S+) by=(\S+) \|\| ")
 USERS = ["alice", "bob\nGET /forged HTTP/1.1 200", "eve\r\n127.0.0.1 - - fake", "nul\0x", "tab\tx", "caf\xc3\xa9", "q\"uote",
@@ -117,7 +118,7 @@ def run(case, choices):
     for r in recs:
         if "\n" in r or "\r" in r:
             which = "other"
-            for atom, probe in (("U", "/\n\rforged"), ("u", "forged"), ("u", "fake"), ("i", "X-H")):
+            for atom, probe in (("U-or-path_info", "/\n\rforged"), ("u", "forged"), ("u", "fake"), ("i", "X-H")):
                 if probe in r:
                     which = atom
                     break
